@@ -193,6 +193,52 @@ def gen_client(tree):
     r_closed = allc or "ConnectionClosedError" in rnames
     r_timeout = allc or "TimeoutError" in rnames
     r_proto = allc or "ProtocolError" in rnames
+    # ---- BatchProxy: the collected calls are dropped after every invocation (oneway or not) that returns
+    def clears_calls(st):
+        return (isinstance(st, ast.Assign) and len(st.targets) == 1 and _is_self_attr(st.targets[0], "__calls")
+                and isinstance(st.value, (ast.List, ast.Tuple)) and not st.value.elts)
+
+    def has_call(node, attr):
+        return bool(_calls(node, lambda c: _is_call_attr(c, attr)))
+
+    def block_cleared(stmts, fname, depth):
+        """True iff on every path through `stmts` that invokes the batch, self.__calls is emptied before the block is left"""
+        ok = True
+        for i, st in enumerate(stmts):
+            if isinstance(st, (ast.If, ast.With, ast.For, ast.While, ast.Try)):
+                for fld in ("body", "orelse", "finalbody"):
+                    sub = getattr(st, fld, None)
+                    if sub:
+                        ok = block_cleared(sub, fname, depth) and ok
+                for h in getattr(st, "handlers", []):
+                    ok = block_cleared(h.body, fname, depth) and ok
+                continue
+            if has_call(st, "_pyroInvokeBatch"):
+                if isinstance(st, ast.Return):
+                    ok = False          # returns straight from the invocation: nothing is cleared
+                    continue
+                cleared = False
+                for later in stmts[i + 1:]:
+                    if clears_calls(later):
+                        cleared = True
+                        break
+                    if isinstance(later, (ast.Return, ast.Raise)) or has_call(later, "_pyroInvokeBatch"):
+                        break
+                    need(not isinstance(later, (ast.If, ast.With, ast.For, ast.While, ast.Try)) or not any(
+                        isinstance(n, (ast.Return, ast.Raise)) for n in ast.walk(later)),
+                        "BatchProxy.%s: cannot follow the control flow between the batch invocation and the clearing of the call list" % fname)
+                ok = ok and cleared
+            elif fname != "_pyroInvoke" and _calls(st, lambda c: isinstance(c.func, ast.Attribute) and _is_self_attr(c.func, "_pyroInvoke")):
+                need(depth == 0, "BatchProxy delegation too deep")
+                ok = ok and block_cleared(find_func(mod, "_pyroInvoke", "BatchProxy").body, "_pyroInvoke", depth + 1)
+        return ok
+    bp_facts = {}
+    for fname in ("__call__", "_pyroInvoke"):
+        bf = find_func(mod, fname, "BatchProxy")
+        need(has_call(bf, "_pyroInvokeBatch") or _calls(bf, lambda c: isinstance(c.func, ast.Attribute) and _is_self_attr(c.func, "_pyroInvoke")),
+             "BatchProxy.%s neither invokes the batch nor delegates" % fname)
+        bp_facts[fname] = block_cleared(bf.body, fname, 0)
+    batch_cleared = all(bp_facts.values())
     out = HEADER % "Pyro5/client.py"
     out += "(* self._pyroSeq = (self._pyroSeq + 1) & 0x%x *)\n" % mask
     out += "Definition seq_mask : N := %s.\n" % cN(mask)
@@ -204,5 +250,7 @@ def gen_client(tree):
     out += "Definition retry_on_closed : bool := %s.\n" % cbool(r_closed)
     out += "Definition retry_on_timeout : bool := %s.\n" % cbool(r_timeout)
     out += "Definition retry_on_protocol : bool := %s.\n" % cbool(r_proto)
-    return out, {"mask": mask, "release": release, "seqcheck": seqcheck, "retry_classes": rnames,
+    out += "(* BatchProxy.__call__ / BatchProxy._pyroInvoke: `self.__calls = []` follows every batch invocation (oneway or not) *)\n"
+    out += "Definition batch_calls_cleared : bool := %s.\n" % cbool(batch_cleared)
+    return out, {"batch_cleared": bp_facts, "mask": mask, "release": release, "seqcheck": seqcheck, "retry_classes": rnames,
                  "ast_sha": {"_pyroInvoke": ast_sha(inv), "_RemoteMethod.__call__": ast_sha(call), "__pyroCheckSequence": ast_sha(cs)}}
